@@ -19,7 +19,7 @@ reset-free (a `reset` starts a new history, see `C01_reset`) -/
 def OpData (F : Nat) (D : Nat → Row) (e : Est) : Op → Prop
   | .fit rows labels => labels = none ∧ (∀ r0, rows.head? = some r0 → r0.length = F) ∧
       (e.st.isLeavesOnly = false → ∀ i (hi : i < rows.length), rows[i].length = F → D (e.numFitted + i) = rows[i])
-  | .refine _ data im => (∀ r ∈ data, r.length = F) ∧ ∀ id r, im ≤ id → data[id - im]? = some r → r = D id
+  | .refine _ data im _ => (∀ r ∈ data, r.length = F) ∧ ∀ id r, im ≤ id → data[id - im]? = some r → r = D id
   | .setMerge _ _ _ b => ∀ b', b = some b' → 2 ≤ b'
   | .setBf b => 2 ≤ b
   | .reset => False
@@ -44,7 +44,7 @@ theorem runOK_of_consistent (X : ExpTab) (F : Nat) (D : Nat → Row) : ∀ (ops 
     cases op with
     | fit rows labels =>
       exact ⟨hop.1, hop.2.1, fun hlo i hi hl => exact_ofRow D _ _ (hop.2.2 hlo i hi hl), refPolicy_mergeClosed_exact X D _⟩
-    | refine n data im =>
+    | refine n data im srt =>
       refine ⟨hop.1, fun id r hle hr => ?_, refPolicy_mergeClosed_exact X D _⟩
       have := hop.2 id r hle hr
       subst this
